@@ -102,6 +102,15 @@ def law_search(ctx, runs=20000):
     cases.append((G, dict(transmission_weight="w", recovery_weight="r"), [0], 2.0, 1.0, 1.0))
     G = nx.complete_graph(3); cases.append((G, {}, [0, 1], 1.0, 0.7, 1.3))
     G = nx.star_graph(3); cases.append((G, {}, [1], 2.5, 1.5, 0.8))
+    # dense, strongly supercritical, long horizon: nodes are reinfected by a second neighbour while a transmission
+    # from the first one is still queued (interleavings that need a triangle / hub)
+    G = nx.Graph([(0, 1), (1, 2), (0, 2), (2, 3)])
+    for (u, v), w in zip(G.edges(), (1.0, 2.0, 0.5, 1.5)):
+        G.edges[u, v]["w"] = w
+    for u, w in zip(G, (1.0, 0.5, 2.0, 1.0)):
+        G.nodes[u]["r"] = w
+    cases.append((G, dict(transmission_weight="w", recovery_weight="r"), [0], 3.0, 2.0, 1.0))
+    G = nx.complete_graph(4); cases.append((G, {}, [0], 3.0, 1.5, 1.0))
     for G, kw, infs, T, tau, gamma in cases:
         nodes = list(G)
         ew = (lambda u, v: G.edges[u, v]["w"]) if kw else (lambda u, v: 1.0)
@@ -120,6 +129,14 @@ def law_search(ctx, runs=20000):
             if pe * runs > 20 and (worst is None or z > worst[0]):
                 worst = (z, s, cnt[s] / runs, float(pe))
         ctx.count("fast_SIS:law-search-cases")
+        # mean prevalence (one aggregated statistic has more power than the per-state tests)
+        k_ = [sum(s) for s in states]
+        mean_e = float(sum(pe * k for pe, k in zip(p, k_)))
+        var_e = float(sum(pe * k * k for pe, k in zip(p, k_))) - mean_e ** 2
+        mean_s = sum(cnt[s] * k for s, k in zip(states, k_)) / runs
+        zm = abs(mean_s - mean_e) / max((var_e / runs) ** 0.5, 1e-9)
+        if zm > 6 and not (worst and worst[0] > 6):
+            worst = (zm, ("mean number infected",), mean_s, mean_e)
         if worst and worst[0] > 6:
             ctx.violation("fast_SIS: state distribution at time T differs from the master equation (%.1f sigma: state %s simulated %.4f exact %.4f)"
                           % worst, dict(entry="fast_SIS", stream="master-equation", n=G.order(), edges=list(map(list, G.edges())),
